@@ -4,7 +4,9 @@ from common import *
 
 ID = "C31"
 GEN = ["Colors"]
-THEOREMS = []
+THEOREMS = ["C31_rgb_range", "C31_hsl_alpha_range", "C31_hsl_sat_nonneg", "C31_hwb_alpha_range", "C31_hue_shape_partial",
+            "C31_refuted_hue", "C31_named", "C31_eq_same_rgba", "C31_roundtrip_named_partial", "C31_roundtrip_gray_partial",
+            "C31_refuted_roundtrip", "C31_k6_is_grey"]
 COQ_HEADER = ("From Coq Require Import String List ZArith Bool.\n"
               "From RV Require Import Model.Color Run.C31.\nImport ListNotations.\nLocal Open Scope string_scope.")
 RUN_EXPR = "Run.C31.run"
@@ -52,7 +54,7 @@ def gen_cases(ctx, tier):
               ("hsl", [0, 150, 50, 1]), ("hwb", [400, 10, 10, 1]), ("hwb", [0, 150, 20, 1]), ("hwb", [0, 80, 80, 1]),
               ("hwb", [0, -10, 20, 1]), ("hsl", [120, 50, 50, 0.5]), ("rgb", [127.5, 0, 0, 1]), ("hsl", [0, 100, 50, 1])]:
         cases.append({"k": e[0], "in": [float(x) for x in e[1]]})
-    n = 700 if tier == "quick" else 9000
+    n = 450 if tier == "quick" else 9000
     for _ in range(n):
         k = rng.choice(["rgb", "hsl", "hsl", "hwb"])
         a = rng.choice(AL) if rng.random() < 0.5 else round(rng.random(), 3)
@@ -68,7 +70,7 @@ def gen_cases(ctx, tier):
     for name, _ in color_names():
         cases.append({"k": "named", "name": name})
     cases.append({"k": "named", "name": "transparent"})
-    for _ in range(80 if tier == "quick" else 1500):
+    for _ in range(40 if tier == "quick" else 1500):
         cases.append({"k": "hex", "in": [rng.randrange(256), rng.randrange(256), rng.randrange(256)]})
     seen, out = set(), []
     for c in cases:
@@ -152,18 +154,45 @@ def coq_term(c, io):
 
 
 def judge(c, io, r):
-    corr, rgb, hue, sl, wb, k1, k2, k3, k4, k5 = r
+    corr, rgb, hue, sl, wb, k1, k2, k3, k4, k5, k6 = r
     eqs = [eq_answer(x) for x in io[1:5]]
     if io[0][0] in ("panic", "crash"):
         corr = 0
+    K1, K2, K3, K4, K5, K6 = ("known_C31_K1_hue_360", "known_C31_K2_hsl_unclamped", "known_C31_K3_hwb_unclamped",
+                              "known_C31_K4_rounded_rgb_channels", "known_C31_K5_hsl_exact_compare", "known_C31_K6_red_eq_green")
+    def first(*ks):
+        for flag, name in ks:
+            if flag:
+                return name
+        return None
     cl = [("rgb-alpha-range", rgb == 1, None),
-          ("hue-range", hue == 1, "known_C31_K1_hue_360" if k1 else None),
-          ("saturation-lightness-range", sl == 1, "known_C31_K2_hsl_unclamped" if k2 else ("known_C31_K3_hwb_unclamped" if k3 else None)),
-          ("whiteness-blackness-range", wb == 1, "known_C31_K3_hwb_unclamped" if k3 else ("known_C31_K2_hsl_unclamped" if k2 else None)),
-          ("rebuild-rgb-equal", eqs[0] == 1, "known_C31_K4_rounded_rgb_channels" if k4 else None),
-          ("rebuild-hsl-equal", eqs[1] == 1, None),
-          ("rebuild-hwb-equal", eqs[2] == 1, None),
+          ("hue-range", hue == 1, first((k1, K1))),
+          ("saturation-lightness-range", sl == 1, first((k2, K2), (k3, K3))),
+          ("whiteness-blackness-range", wb == 1, first((k3, K3), (k2, K2))),
+          ("rebuild-rgb-equal", eqs[0] == 1, first((k4, K4))),
+          ("rebuild-hsl-equal", eqs[1] == 1, first((k6, K6), (k5, K5))),
+          ("rebuild-hwb-equal", eqs[2] == 1, first((k6, K6), (k5, K5))),
           ("same-rgba-equal", eqs[3] == 1, None)]
     return {"corr": corr == 1, "clauses": cl, "nontrivial": c["k"] != "named",
-            "tags": [c["k"]] + [f"K{i+1}" for i, k in enumerate([k1, k2, k3, k4, k5]) if k],
+            "tags": [c["k"]] + [f"K{i+1}" for i, k in enumerate([k1, k2, k3, k4, k5, k6]) if k],
             "show": expr_of(c), "detail": expr_of(c)}
+
+
+def shrink(c):
+    if c["k"] in ("rgb", "hsl", "hwb"):
+        v = c["in"]
+        for i in range(4):
+            for nv in (0.0, 1.0, 50.0, 100.0):
+                if v[i] != nv:
+                    w = list(v); w[i] = nv
+                    yield dict(c, **{"in": w})
+
+
+LEVEL_TEXT = ("proof: range theorems for Rgba::new / Hsla::new / Hwba::new over ALL binary64 inputs (NaN and infinities included) by "
+              "case analysis on Flocq comparisons; equality of equal rgba channels for all f64; named-colour table laws and round trips "
+              "of all named colours and greys by finite sweep over the table regenerated from rgba.rs; the model is tied to the code by "
+              "bit-exact correspondence of all 16 channel values (own, rgba, hsla, hwba) on every generated constructor call")
+LEVEL_NOTE = ("trusted: Coq kernel+vm_compute, Flocq binary64, gen/gens/Colors.py, harness command `color`; hue range and general round trip "
+              "are partial; the statement is false on the pinned tree in six recorded classes (hue 360, unclamped hsl/hwb arguments, rounded "
+              "channel functions, exact hsl comparison, and rgb->hsl of colours with red = green > blue)")
+TECHNIQUE = "Coq proof (case analysis on binary64 comparisons, finite sweeps over generated table) + translator + bit-exact differential correspondence"
